@@ -118,8 +118,30 @@ PROPS["C10"] = {
     "assumptions": KANI_ASSUME + ["std::sync::Arc's atomics are modelled sequentially"],
 }
 
+def _c15_extra(prop, tier):
+    """The C side of callbacks and iterators: the helper snippets every header emitted by cglue-bindgen carries (buffer
+    iterator, static collect callback) - CBMC on the C text produced by the real tool (C17's machinery), gcc as replay."""
+    import sys as _sys
+    _sys.path.insert(0, os.path.join(os.path.dirname(os.path.dirname(os.path.abspath(__file__))), "c17"))
+    import c17
+    r = c17.helper_checks()
+    out = {"coverage": {"c_helper_snippets": {"cbmc_properties": r["props"], "solver_time_s": round(r["secs"], 2), "harness": r["harness"],
+                                              "what": "buf_iter_next over buffers of symbolic length 0..=3 and contents; "
+                                                      "cb_collect_static_base with symbolic capacity 0..=3 and 0..=4 offered items"}},
+           "violations": [], "inconclusive": []}
+    if r["error"] or not r.get("has_helper_tests"):
+        out["inconclusive"].append("C helper snippets not decided: %s" % (r["error"] or "helpers not found in the emitted header"))
+    for f in r["failed"]:
+        if f["gcc_replay_fails"] or f["check"]["id"].find("pointer") >= 0 or f["check"]["id"].find("bounds") >= 0:
+            out["violations"].append(("C helper: %s" % f["check"]["desc"], f))
+        else:
+            out["inconclusive"].append("C helper counterexample did not replay: %s" % f["check"]["desc"])
+    return out
+
+
 PROPS["C15"] = {
     "crate": "rt",
+    "extra": _c15_extra,
     "groups": [
         {"id": "feed",
          "quick": ["c15::c15_feed_into_closure_4", "c15::c15_feed_into_mut_closure_4", "c15::c15_extend_closure_4",
